@@ -328,6 +328,15 @@ func main(a uint16, b uint16) (uint8, uint16, int8, bool) {
 	}
 	return r, s, t, (p == -3) != (x == 3) || q == p
 }`,
+	// a builtin circuit (its result is narrower than the result type: the builder leaves the upper bits to constants)
+	`package main
+import (
+	"encoding/binary"
+)
+func main(a, b uint16) (uint, uint8) {
+	h := binary.HammingDistance(a, b)
+	return h, uint8(h) + uint8(a)
+}`,
 }
 
 type pgStructTemplate struct {
